@@ -1000,6 +1000,21 @@ class MultiUserChannelMatrix:  # pylint: disable=R0902
         self._big_H_no_pathloss.setflags(write=False)
         self._H_no_pathloss.setflags(write=False)
 
+        # The path loss (if any) must follow the new antenna configuration
+        self._update_pathloss_big_matrix()
+
+    def _update_pathloss_big_matrix(self) -> None:
+        """
+        Recompute the expanded path loss matrix for the current number of
+        antennas of each user (it depends on how the antennas are split).
+        """
+        if self._pathloss_matrix is not None:
+            Kr, Kt = self._pathloss_matrix.shape
+            self._pathloss_big_matrix = \
+                MultiUserChannelMatrix._from_small_matrix_to_big_matrix(
+                    self._pathloss_matrix, self._Nr, self._Nt, Kr, Kt)
+            self._pathloss_big_matrix.setflags(write=False)
+
     def randomize(self, Nr: IntOrIntArrayUnion, Nt: IntOrIntArrayUnion,
                   K: int) -> None:
         """
@@ -1042,6 +1057,9 @@ class MultiUserChannelMatrix:  # pylint: disable=R0902
         # modification of individual elements in both of them.
         self._big_H_no_pathloss.setflags(write=False)
         self._H_no_pathloss.setflags(write=False)
+
+        # The path loss (if any) must follow the new antenna configuration
+        self._update_pathloss_big_matrix()
 
     def get_Hkl(self, k: int, l: int) -> np.ndarray:
         """
